@@ -713,7 +713,24 @@ def _scope_info(_):
                        and not any(d in NARROW for d in dts if d))
         except Exception:
             out.append(False)
-    return out
+    return out, [exports.tp_key(tp) for tp in exports.registry_items()]
+
+
+def regression_cases():
+    """registry cases named by any entry (known or fixed) of known_findings.d/C09.json: always part of the sample, so that
+    a repaired defect that comes back is found by every run.  Returns (single-mode case keys, double-mode case keys)."""
+    single, double = set(), set()
+    try:
+        entries = json.load(open(os.path.join(common.VERIF, "known_findings.d", "C09.json")))
+    except Exception:
+        entries = []
+    for e in entries:
+        kind, _, rest = e.get("key", "").partition(":")
+        if kind == "double-in-single":
+            single.add(rest.rsplit(":", 2)[0])
+        elif kind in ("hidden-f32", "mixed-precision-invalid"):
+            double.add(rest)
+    return single, double
 
 
 # ---- (d) the process-wide flag
@@ -1261,14 +1278,16 @@ def run(ctx):
     t_pool = time.time()
     with get_context("spawn").Pool(procs, initializer=_init_worker, maxtasksperchild=60) as pool:
         rows_async = pool.apply_async(policy_rows_worker, (0,))
-        scope = pool.apply(_scope_info, (0,))
+        scope, all_keys = pool.apply(_scope_info, (0,))
         total = len(scope)
-        idx_s = exports.select_indices(total, n_single, ctx.seed)
+        reg_single, reg_double = regression_cases()
+        idx_s = sorted(set(exports.select_indices(total, n_single, ctx.seed)) | {i for i, k in enumerate(all_keys) if k in reg_single})
         # double mode: three quarters of the sample from the testcases the numeric comparison applies to, the rest from all
         in_scope = [i for i, okk in enumerate(scope) if okk]
         n_in = (n_double * 3) // 4
         idx_d = sorted({in_scope[j] for j in exports.select_indices(len(in_scope), n_in, ctx.seed + 1)} |
-                       set(exports.select_indices(total, n_double - n_in, ctx.seed + 1)))
+                       set(exports.select_indices(total, n_double - n_in, ctx.seed + 1)) |
+                       {i for i, k in enumerate(all_keys) if k in reg_double})
         jobs = [("reg", i, False, ctx.seed, False) for i in idx_s] + [("extra", n, False, ctx.seed, False) for n in exports.extra_names()]
         jobs += [("reg", i, True, ctx.seed, True) for i in idx_d] + [("extra", n, True, ctx.seed, True) for n in exports.extra_names()]
         flag_idents = exports.select_indices(total, 4 if quick else 40, ctx.seed + 2)
@@ -1487,7 +1506,7 @@ def run(ctx):
         "rule": "policy: all 15 numpy dtypes x flag (exhaustive), closed-constant decision: all 15x16x2x2; exports: deterministic spread "
                 "over the registry + hand-written nested programs, each in single and double mode; non-trivial = export with more than one node",
         "exhaustive_policy": True,
-        "registry_size": total, "registry_items_in_numeric_scope": len(in_scope),
+        "registry_size": total, "regression_cases_always_sampled": len(reg_single) + len(reg_double), "registry_items_in_numeric_scope": len(in_scope),
         "single_exports": {"attempted": len(singles), "exported": n_s_ok, "export_errors": n_err_s, "no_double": n_s_clean,
                            "double_expected_float64_input": n_expected_input,
                            "double_expected_requested_by_testcase": n_expected_request,
